@@ -394,7 +394,7 @@ def tree_spec(draw, profile_name, max_nodes=14):
     opts = None
     if p.allows_explicit_ids() or p.typed:
         opts = gen.node_opts(explicit_ids=p.allows_explicit_ids(), kinds=p.typed)
-    spec = draw(gen.forest_specs(max_nodes=max_nodes, max_depth=5, max_width=4, alphabet=LABELS, opts=opts, min_nodes=1))
+    spec = draw(gen.forest_specs(max_nodes=max_nodes, max_depth=5, max_width=4, alphabet=LABELS, opts=opts, min_nodes=0))
     if p.allows_explicit_ids():
         gen.localize_ids(spec, LABELS)
         gen.fix_sibling_ids(spec)
